@@ -34,6 +34,7 @@ continuation lines and every non-canonical spelling are not in it).
 import Comrak.Lemmas.CanonFn
 import Comrak.Lemmas.CanonShape
 import Comrak.Lemmas.CanonPos
+import Comrak.Lemmas.CanonPosN
 import Comrak.Canon.Ok
 namespace Comrak.C03
 open Comrak Bytes Comrak.Canon
@@ -161,8 +162,8 @@ example : sampleDoc.write.length = 358 := by decide +kernel
 example : Shape sampleDoc.toTree = true := by decide +kernel
 /-- The claimed positions of the sample lie inside `write d`, nest, are ordered and denote the text
     their kinds claim (the C11 / C12 oracles of Comrak/Sourcepos.lean; the statement for every
-    canonical document, `Doc.ok d → Doc.posOk d`, is evaluated by the driver for each generated
-    document and reported by the harness, not proved). -/
+    canonical document, `Doc.ok d → Doc.posOk d`, is `positions_canon` below; the driver also
+    evaluates it for each generated document). -/
 example : sampleDoc.posOk = true := by decide +kernel
 
 /-- The two recorded findings are visible on the model: comrak's trees for these documents are not
@@ -174,5 +175,40 @@ example : Doc.ok { blocks := Blks.ofList [.list { tight := true } (Items.ofList
 example : Doc.ok { blocks := Blks.ofList [.list { tight := true } (Items.ofList
     [Blks.ofList [.para (Inls.ofList [.text [.esc 0x5B, .ch 0x78, .esc 0x5D, .ch 0x20, .ch 0x61]])]])] } = false := by
   decide +kernel
+
+/-! ### Positions: the C11 / C12 oracles on the canonical class -/
+
+/-- **Positions of canonical documents (C11 / C12 on the canonical class).**  For every canonical
+    document - any nesting of block quotes and lists, tables, task items, HTML blocks, footnotes,
+    multi-line emphasis and links - the positioned tree `d.toTreeP` passes all oracles of
+    Comrak/Sourcepos.lean on the written source `write d`: every claimed position lies in the
+    source (`spRangeFail`), lies within its nearest reliable ancestor (`spNested`), follows its
+    previous sibling (`spOrdered`), and denotes a slice with the bytes its kind requires
+    (`sliceFail`: text literals, delimiters of code spans / emphasis / strong / strikethrough /
+    links / images / autolinks, `#` of ATX headings, underline and line end of setext headings,
+    fence, thematic break, `>` of block quotes, no bare pipe in table cells; `sliceEndFail`: a
+    block quote ends where a line ends).  Stated under two explicit decidable hypotheses, both of
+    which are consequences of `Doc.ok d` (`positions_canon` below): `cleanG d.glines` - no line `write d` joins contains a line-end byte - and
+    `d.ph` (Comrak/Lemmas/CanonPosE.lean, CanonPosJ.lean) - local facts: no empty line inside a
+    paragraph, lengths at least 1 / 3, heading and cell content on one line, escaped pipes in
+    cells, the writer's order of the footnote definitions names valid definitions. -/
+theorem positions_canon_partial (d : Doc) (h1 : cleanG d.glines = true) (h2 : d.ph = true) : d.posOk = true :=
+  positions_doc d h1 h2
+
+/-- The lines `Doc.write` joins (`write d = joinLines d.glines`) contain no line end and no carriage
+    return: the line table of the source is the list of these lines. -/
+theorem write_lines_clean_canon (d : Doc) (h : d.ok = true) : d.write = Canon.joinLines d.glines ∧ cleanG d.glines = true :=
+  ⟨rfl, (hyps_of_ok d h).1⟩
+
+/-- **C11 / C12 on the canonical class.**  For every canonical document (`Doc.ok d`, nothing else
+    assumed) the positioned tree `d.toTreeP` - the positions the harness compares with the real
+    parser's on every run - satisfies the range, nesting, order and slice clauses of
+    Comrak/Sourcepos.lean on `write d`.  (Derived from `positions_canon_partial`: `Doc.ok` gives
+    both hypotheses - `inls_facts`, `blk_facts`, `cellPh_of_wf`, `order_valid`, `hyps_of_ok` in
+    Comrak/Lemmas/CanonPosK..N.lean.) -/
+theorem positions_canon (d : Doc) (h : d.ok = true) : d.posOk = true := positions_ok d h
+
+/-- The hypotheses are satisfiable together with `Doc.ok` (the sample has every construct). -/
+example : cleanG sampleDoc.glines = true ∧ sampleDoc.ph = true := by decide +kernel
 
 end Comrak.C03
